@@ -20,8 +20,11 @@ def flat(v):
     return [str(v)]
 
 
-def run(ck, tier, which=('scalar', 'element')):
+def run(ck, tier, which=('scalar', 'element'), observers=None):
+    """observers: the observer names the embedding property is about (None: all); package-level writes count only for objects the
+    embedding check's own functions read (all of them when observers is None)"""
     failures = []
+    own_reads = None if observers is None else set(ck.greads)
     jobs = []
     if 'scalar' in which:
         jobs += [{'id': 'hs%d' % m, 'harness': 'vh_hidden_scalar', 'args': [m], 'summaries': kernel_summaries('scalar', 's')} for m in range(len(SMUT))]
@@ -33,9 +36,11 @@ def run(ck, tier, which=('scalar', 'element')):
         kind, m = r.id[:2], int(r.id[2:])
         what = ('Scalar.' + SMUT[m]) if kind == 'hs' else ('Element.' + EMUT[m])
         pairs = ['bits', 'enc', 'isz', 'isone', 'eq', 'le'] if kind == 'hs' else ['enc', 'unc', 'isid', 'eq']
+        if observers is not None:
+            pairs = [x for x in pairs if x in observers]
         rets = [p for p in r.paths if p['end'] == 'return']
         for p in rets:
-            gw = [w for w in p.get('writes', []) if w.get('tag') == 'Global']
+            gw = [w for w in p.get('writes', []) if w.get('tag') == 'Global' and (own_reads is None or w.get('label') in own_reads)]
             shared = [nm for nm in pairs if isinstance(p['obs'].get(nm), dict) and p['obs'][nm].get('k') in ('slice', 'str') and p['obs'][nm].get('tag') == 'Global']
             if not ck.ground('hidden.%s.path%d.pkgstate' % (r.id, p['id']), 'history around %s: no package-level state is written, no package-level storage is handed to the caller' % what, not gw and not shared,
                              str([(w['label'], w['at']) for w in gw[:2]] + shared)):
@@ -74,12 +79,13 @@ def run(ck, tier, which=('scalar', 'element')):
     return failures
 
 
-def embed(ck, tier, which, pid, what):
-    """runs the two-step histories inside another check and replays findings against the real build"""
-    hf = run(ck, tier, which=which)
+def embed(ck, tier, which, pid, what, observers=None):
+    """runs the two-step histories inside another check and replays findings against the real build; only the observers the
+    property is about are compared and replayed"""
+    hf = run(ck, tier, which=which, observers=observers)
     if hf and not ck.violations:
         seen = sorted({(f_[3], f_[2]) for f_ in hf} | {(f_[3], 14 if f_[3] == 'hs' else 10) for f_ in hf})
-        cases = [{'kind': 'hidden-scalar' if k == 'hs' else 'hidden-element', 'n': m} for (k, m) in seen]
+        cases = [{'kind': 'hidden-scalar' if k == 'hs' else 'hidden-element', 'n': m, 'op': pid, 'a': ','.join(observers or [])} for (k, m) in seen]
         path = ck.save_replay({'property': pid, 'cases': cases, 'symbolic_findings': [list(map(str, f_)) for f_ in hf[:8]]})
         ok, out = core.go_test(path)
         if not ok and 'MISMATCH' in out:
